@@ -78,6 +78,14 @@ def run(chk):
     paths = 0
     from . import e10
     e10.run_U(chk, ("yastn.tn.mps._dmrg", "yastn.tn.mps._env", "yastn.krylov", "yastn.tensor._krylov"), rule1="U1", rule2="U2", floor1=40, floor2=10)
+    # the effective Hamiltonians DMRG minimises are those of the very operator: every Heff0/1/2 sibling carries the operator's norm factor
+    # on every path (a sum of operators with different coefficients is otherwise minimised with wrong relative weights)
+    from . import e8
+    chk.rule("O8", "all effective Hamiltonians Heff0/Heff1/Heff2 carry the operator's norm factor on every path", floor=8)
+    e8.check_heff_factor(chk, "O8")
+    run_O9(chk)
+    ng = e7.check_local_generators(chk, "O5", prog, DMRG)
+    chk.require(ng >= 2, f"local generators handed to eigs in _dmrg not found ({ng})")
     for mod, name in ((DMRG, "_dmrg_sweep_1site_"), (DMRG, "_dmrg_sweep_2site_"),
                       (COMP, "_compression_1site_sweep_"), (COMP, "_compression_2site_sweep_")):
         f = prog.func(mod, name)
@@ -142,6 +150,47 @@ def run(chk):
                 "_dmrg_: a non-canonical input state is no longer canonised before the environments are built")
     # 2-site: post_2site_ normalises? (truncation keeps norm via mask; check opts) -- informational only
 
+
+
+def run_O9(chk):
+    """O9: DMRG minimises.  Whatever options reach the eigensolver, the local problem is solved for the *smallest* (real part of the)
+    eigenvalue: `which='SR'` must hold on every path into eigs -- in the defaults dmrg_ builds, and, for option dictionaries supplied
+    without `which`, in the default of eigs itself (or the call passes which= explicitly)."""
+    prog = chk.prog
+    chk.rule("O9", "the local eigenproblem of DMRG is solved for the smallest eigenvalue (which='SR') for every option set", floor=2)
+    eg = prog.func("yastn.krylov._krylov", "eigs")
+    a = eg.node.args
+    names = [x.arg for x in a.posonlyargs + a.args]
+    dflt = dict(zip(names[len(names) - len(a.defaults):], a.defaults))
+    d = dflt.get("which")
+    eigs_default_sr = isinstance(d, ast.Constant) and d.value == "SR"
+    n = 0
+    for name in ("_dmrg_sweep_1site_", "_dmrg_sweep_2site_"):
+        f = prog.func(DMRG, name)
+        for c in A.calls(f.node):
+            if (A.call_name(c) or "").split(".")[-1] != "eigs":
+                continue
+            n += 1
+            explicit = A.kwarg(c, "which")
+            splat = [k for k in c.keywords if k.arg is None]
+            if explicit is not None:
+                ok = isinstance(explicit, ast.Constant) and explicit.value == "SR"
+                why = f"passes which={A.text(explicit)}"
+            else:
+                ok = eigs_default_sr
+                why = f"relies on the default which={A.text(d) if d is not None else '?'} of eigs for option dictionaries without that key"
+            chk.verdict("O9", (f, c), f"{name}: `{A.short(c, 60)}` ({why})", True if ok else False,
+                        f"{name}(): the eigensolver call {why}: a caller who supplies opts_eigs without 'which' (e.g. {{'hermitian': True, 'ncv': 5}}) gets "
+                        f"another end of the spectrum than the smallest real part -- the energy rises from sweep to sweep and DMRG converges to the "
+                        f"highest state of the sector")
+    chk.require(n >= 2, f"eigs calls of the DMRG sweeps not found ({n})")
+    # the defaults dmrg_ builds when no options are given
+    dm = prog.func(DMRG, "dmrg_")
+    dd = [x for x in ast.walk(dm.node) if isinstance(x, ast.Dict) and any(isinstance(k, ast.Constant) and k.value == "which" for k in x.keys)]
+    for x in dd:
+        v = x.values[[k.value if isinstance(k, ast.Constant) else None for k in x.keys].index("which")]
+        chk.verdict("O9", (dm, x), f"dmrg_: default options {A.short(x, 60)}", True if isinstance(v, ast.Constant) and v.value == "SR" else False,
+                    "dmrg_: the default eigensolver options do not ask for the smallest real part")
 
 MUTANTS = [
     ("tolerances exchanged in the driver call", "yastn/tn/mps/_dmrg.py", "                energy_tol, Schmidt_tol, max_sweeps,\n                opts_eigs, opts_svd, precompute, **kwargs)\n", "                Schmidt_tol, energy_tol, max_sweeps,\n                opts_eigs, opts_svd, precompute, **kwargs)\n", "U4"),
